@@ -115,8 +115,8 @@ static std::string wrap_class(size_t L) {
   if (L >= 55 && (m57 <= 2 || m57 >= 55)) return "within 2 octets of a 76-column wrap (multiple of 57 octets)";
   return "between wrap boundaries";
 }
-VF_ENUM(radix64_lengths, 203, 203) { // index = length 0..200; 201 = ALL strings of length <= 2; 202 = 3-octet groups
-  size_t i = ctx.c.raw();
+VF_ENUM(radix64_lengths, 233, 233) { // work items (index permuted to spread the cost): 0..200 = that length; 201..216 = ALL strings of length <= 2; 217..232 = 3-octet groups
+  size_t i = ((size_t)ctx.c.raw() * 7) % 233;
   if (i <= 200) {
     size_t L = i; bool boundary = wrap_class(L)[0] == 'w'; unsigned nrand = boundary ? 40 : 8; uint64_t n = 0;
     Bytes b(L, 0); check_radix64(ctx, b, true); n++;
@@ -124,19 +124,20 @@ VF_ENUM(radix64_lengths, 203, 203) { // index = length 0..200; 201 = ALL strings
     for (size_t k = 0; k < L; k++) b[k] = (uint8_t)(k * 37 + 11); check_radix64(ctx, b, true); n++;
     for (unsigned r = 0; r < nrand && !ctx.failed; r++) { uint64_t s = ctx.c.raw64(); for (size_t k = 0; k < L; k++) b[k] = (uint8_t)(mix64(s + k / 8) >> (8 * (k % 8))); check_radix64(ctx, b, r < 4); n++; }
     ctx.count("strings_checked", n); ctx.label(wrap_class(L)); ctx.desc << "length " << L << ": " << n << " strings"; ctx.nontrivial("L" + N(L));
-  } else if (i == 201) {
-    uint64_t n = 0; Bytes b; check_radix64(ctx, b, true); n++;
-    b.resize(1); for (unsigned a = 0; a < 256 && !ctx.failed; a++) { b[0] = a; check_radix64(ctx, b, false); n++; }
-    b.resize(2); for (unsigned a = 0; a < 65536 && !ctx.failed; a++) { b[0] = a >> 8; b[1] = a; check_radix64(ctx, b, false); n++; }
-    ctx.count("strings_checked", n); ctx.label("exhaustive: every string of length 0..2"); ctx.desc << "all " << n << " strings of length <= 2"; ctx.nontrivial("all<=2");
+  } else if (i <= 216) {
+    unsigned hi = (unsigned)(i - 201); uint64_t n = 0; Bytes b;
+    if (hi == 0) { check_radix64(ctx, b, true); n++; }
+    b.resize(1); for (unsigned a = 16 * hi; a < 16 * hi + 16 && !ctx.failed; a++) { b[0] = a; check_radix64(ctx, b, false); n++; }
+    b.resize(2); for (unsigned a = 4096 * hi; a < 4096 * hi + 4096 && !ctx.failed; a++) { b[0] = a >> 8; b[1] = a; check_radix64(ctx, b, false); n++; }
+    ctx.count("strings_checked", n); ctx.label("exhaustive: every string of length 0..2"); ctx.desc << "all strings of length <= 2 with first octet " << 16 * hi << ".." << 16 * hi + 15; ctx.nontrivial("all<=2/" + N(hi));
   } else {
     static const uint8_t sel[16] = {0x00, 0x01, 0x0F, 0x10, 0x3F, 0x40, 0x7F, 0x80, 0xAA, 0xBF, 0xC0, 0xF0, 0xFB, 0xFC, 0xFE, 0xFF};
-    uint64_t n = 0; Bytes b(3);
-    for (unsigned a = 0; a < 256 && !ctx.failed; a++) for (unsigned x = 0; x < 16; x++) for (unsigned y = 0; y < 16; y++) { b[0] = a; b[1] = sel[x]; b[2] = sel[y]; check_radix64(ctx, b, false); b[0] = sel[x]; b[1] = a; check_radix64(ctx, b, false); b[1] = sel[y]; b[2] = a; check_radix64(ctx, b, false); n += 3; }
-    ctx.count("strings_checked", n); ctx.label("3-octet groups: every value at every position"); ctx.desc << n << " three-octet strings"; ctx.nontrivial("groups");
+    unsigned hi = (unsigned)(i - 217); uint64_t n = 0; Bytes b(3);
+    for (unsigned a = 16 * hi; a < 16 * hi + 16 && !ctx.failed; a++) for (unsigned x = 0; x < 16; x++) for (unsigned y = 0; y < 16; y++) { b[0] = a; b[1] = sel[x]; b[2] = sel[y]; check_radix64(ctx, b, false); b[0] = sel[x]; b[1] = a; check_radix64(ctx, b, false); b[1] = sel[y]; b[2] = a; check_radix64(ctx, b, false); n += 3; }
+    ctx.count("strings_checked", n); ctx.label("3-octet groups: every value at every position"); ctx.desc << n << " three-octet strings, free octet " << 16 * hi << ".." << 16 * hi + 15; ctx.nontrivial("groups/" + N(hi));
   }
 }
-VF_SUB(radix64_sampled, 2500, 50000) {
+VF_SUB(radix64_sampled, 4000, 50000) {
   size_t L; std::string lc;
   switch (ctx.c.weighted({12, 12, 8, 6, 1})) {
     case 0: L = (size_t)ctx.c.range(0, 400); lc = "0..400"; break;
@@ -166,7 +167,7 @@ static std::string gen_comment(Ctx &ctx, std::string *cls) {
     default: { *cls = "utf-8 comment"; std::string s; size_t n = (size_t)ctx.c.range(1, 30); for (size_t i = 0; i < n; i++) s += (ctx.c.coin() ? "\xC3\xBC" : "x"); return s; }
   }
 }
-VF_SUB(armor_roundtrip, 4000, 80000) {
+VF_SUB(armor_roundtrip, 4000, 60000) {
   size_t ti = ctx.c.index(4); const AType &at = ATYPES[ti];
   size_t L; if (ctx.c.prob(1, 3)) { size_t k = (size_t)ctx.c.small(1, 60); L = 48 * k + (size_t)ctx.c.range(0, 4) - 2; } else L = (size_t)ctx.c.small(1, ctx.thorough ? 20000 : 6000);
   std::string cc, ccls; Bytes data = content(ctx, L, &cc); std::string comment = gen_comment(ctx, &ccls); bool version = ctx.c.prob(1, 3);
@@ -203,7 +204,7 @@ VF_SUB(armor_roundtrip, 4000, 80000) {
     if (t != rt.t || back != data) ctx.fail("armor/decode/valid-reference-armor-not-recovered", vname + ": ArmorDecode returned type " + N(t) + " payload " + N(back.size()) + " octets for " + ctx.desc.str()); }
   ctx.nontrivial(N(ti) + comment + N(version) + N(L) + N(R::crc24(data)) + N(v));
 }
-VF_SUB(armor_negative, 4000, 80000) {
+VF_SUB(armor_negative, 6000, 120000) {
   size_t ti = ctx.c.index(4); const AType &at = ATYPES[ti]; bool lf = ctx.c.prob(1, 4); std::string eol = lf ? "\n" : "\r\n"; size_t width = lf ? 76 : 64;
   size_t L = (size_t)ctx.c.small(1, 700); Bytes data = content(ctx, L); std::string ccls, comment = gen_comment(ctx, &ccls);
   std::string begin = std::string("-----BEGIN ") + at.title + "-----", end = std::string("-----END ") + at.title + "-----";
@@ -297,7 +298,7 @@ VF_ENUM(packet_lengths, 38, 38) { // index < 35: one boundary length; 35: every 
   }
 }
 // reference-built packets in every length form the RFC allows, decoded by the library
-VF_SUB(packet_forms_decode, 3000, 60000) {
+VF_SUB(packet_forms_decode, 4000, 60000) {
   static const unsigned tags[] = {8, 9, 11, 13, 17, 18, 20};
   unsigned tag = tags[ctx.c.index(7)]; size_t L;
   switch (ctx.c.weighted({4, 3, 2, 1})) { case 0: L = (size_t)ctx.c.range(1, 300); break; case 1: { static const size_t b[] = {191, 192, 255, 256, 512, 8383, 8384, 65535, 65536}; L = b[ctx.c.index(9)] + (size_t)ctx.c.range(0, 4) - 2; break; }
@@ -373,7 +374,7 @@ VF_ENUM(mpi_small_integers, 18, 18) { // index k: every integer in [4096k, 4096(
   else { for (unsigned n = 0; n <= 4200 && !ctx.failed; n++) { Z p = Z(1) << n; check_mpi(ctx, p - 1, false); check_mpi(ctx, p, n % 16 == 0); check_mpi(ctx, p + 1, false); } ctx.count("integers_checked", 3 * 4201); ctx.label("exhaustive: 2^n-1, 2^n, 2^n+1 for n <= 4200"); ctx.desc << "powers of two and neighbours"; }
   ctx.nontrivial("k" + N(k));
 }
-VF_SUB(mpi_codec, 4000, 80000) {
+VF_SUB(mpi_codec, 6000, 120000) {
   std::string cls; Z v = gen_int(ctx, ctx.thorough ? 16384 : 8192, &cls); size_t bits = R::zbits(v);
   ctx.desc << cls << ", " << bits << " bits: " << S(v); ctx.label(cls); ctx.label("bit length mod 8 = " + N(bits % 8));
   check_mpi(ctx, v, bits <= 4096);
@@ -409,7 +410,7 @@ VF_ENUM(s2k_all_count_octets, 1024, 2304) { // index = hash (4 quick / 9 thoroug
   ctx.label(hash_name(hash)); ctx.label("count exponent " + N(c >> 4)); ctx.label(keylen > dlen ? "key longer than digest" : (keylen == dlen ? "key = digest length" : "key shorter than digest"));
   check_s2k(ctx, hash, true, c, salt, pass, keylen); ctx.nontrivial(N(hash) + "/" + N(c));
 }
-VF_SUB(s2k_sampled, 4000, 80000) {
+VF_SUB(s2k_sampled, 5000, 100000) {
   unsigned hash = S2K_HASHES[ctx.c.index(9)]; bool iterated = ctx.c.prob(2, 3); size_t keylen = (size_t)ctx.c.range(1, 64); size_t dlen = gcry_md_get_algo_dlen(R::gcry_hash_id(hash));
   if (ctx.c.prob(1, 4)) { size_t m = (size_t)ctx.c.range(1, 64 / dlen ? 64 / dlen : 1) * dlen; keylen = m + (size_t)ctx.c.range(0, 2) - 1; if (keylen < 1) keylen = 1; if (keylen > 64) keylen = 64; }
   unsigned c; std::string pcls; std::string pass;
@@ -432,7 +433,7 @@ VF_SUB(s2k_sampled, 4000, 80000) {
 
 // ---------------------------------------------------------------------------
 // (6) fingerprints and key identifiers
-VF_SUB(fingerprint_keyid, 3000, 60000) {
+VF_SUB(fingerprint_keyid, 4000, 80000) {
   size_t L; std::string lc;
   switch (ctx.c.weighted({4, 3, 2, 1})) { case 0: L = (size_t)ctx.c.range(6, 600); lc = "6..600"; break; case 1: { static const size_t b[] = {255, 256, 257, 511, 512, 65279, 65280, 65535}; L = b[ctx.c.index(8)]; lc = "length octet boundary"; break; }
     case 2: L = (size_t)ctx.c.small(600, 65535); lc = "600..65535"; break; default: L = (size_t)ctx.c.range(0, 5); lc = "0..5"; break; }
@@ -446,4 +447,414 @@ VF_SUB(fingerprint_keyid, 3000, 60000) {
   std::string hx, want; PGP::FingerprintConvertPlain(f4, hx); for (uint8_t b : f4) { char t[3]; snprintf(t, 3, "%02X", b); want += t; }
   if (hx != want) ctx.fail("fingerprint/convert-plain/not-upper-case-hex", hx + " vs " + want);
   ctx.nontrivial(N(L) + R::hex(f4));
+}
+
+// ---------------------------------------------------------------------------
+// (7) packet encoders against reference encoders, decoder round trip
+static bool zeq(Ctx &ctx, const std::string &sig, const char *field, gcry_mpi_t got, const Z &want) {
+  Z g = fromG(got); if (g == want) return true; ctx.fail(sig, std::string("field ") + field + ": decoded " + S(g) + " expected " + S(want) + " [" + ctx.desc.str() + "]"); return false;
+}
+VF_SUB(pkt_uid_literal, 4000, 80000) {
+  bool uid = ctx.c.coin(); size_t L;
+  switch (ctx.c.weighted({5, 3, 1})) { case 0: L = (size_t)ctx.c.range(uid ? 0 : 1, 200); break; case 1: { static const size_t b[] = {191, 192, 8383, 8384}; L = b[ctx.c.index(4)] + (size_t)ctx.c.range(0, 8) - 7; break; } default: L = (size_t)ctx.c.small(200, 30000); break; }
+  if (uid) {
+    std::string u; std::string cls;
+    switch (ctx.c.weighted({3, 2, 1})) { case 0: cls = "name <address>"; u = text(ctx, L); break; case 1: cls = "utf-8"; u = text(ctx, L, true); break; default: { cls = "arbitrary octets"; Bytes b = content(ctx, L); u.assign(b.begin(), b.end()); break; } }
+    ctx.desc << "user id, " << u.size() << " octets (" << cls << ")"; ctx.label("user id: " + cls);
+    Bytes lib; PGP::PacketUidEncode(u, lib); Bytes ub(u.begin(), u.end());
+    if (same(ctx, "packet/uid/encode-differs-from-reference", "user id packet", lib, R::packet(13, ub))) {
+      Dec d(lib); if (d.ret != 13 || arr(d.c.uiddata, d.c.uiddatalen) != ub || !d.rest.empty()) ctx.fail("packet/uid/decode-does-not-recover-fields", "PacketDecode returned " + N(d.ret) + ", " + N(d.c.uiddatalen) + " octets for " + ctx.desc.str());
+    }
+    ctx.nontrivial("u" + u);
+  } else {
+    std::string cc; Bytes data = content(ctx, L, &cc); long now = (long)ctx.c.range(0, 400000000UL); set_vnow(now); uint32_t t = (uint32_t)(1790000000UL + now);
+    ctx.desc << "literal data, " << L << " octets (" << cc << "), clock " << t; ctx.label("literal data");
+    Bytes lib; PGP::PacketLitEncode(data, lib);
+    if (same(ctx, "packet/literal/encode-differs-from-reference", "literal packet", lib, R::packet(11, R::literal_body(0x62, "", t, data)))) {
+      Dec d(lib); if (d.ret != 11 || arr(d.c.data, d.c.datalen) != data || d.c.dataformat != 0x62 || d.c.datafilenamelen != 0 || d.c.datatime != t || !d.rest.empty()) ctx.fail("packet/literal/decode-does-not-recover-fields", "PacketDecode returned " + N(d.ret) + ", " + N(d.c.datalen) + " octets, time " + N(d.c.datatime) + " for " + ctx.desc.str());
+    }
+    ctx.nontrivial("l" + N(L) + N(t) + N(R::crc24(data)));
+  }
+}
+struct Curve { const char *name; const tmcg_openpgp_byte_t *oid; };
+VF_SUB(pkt_public_key, 5000, 100000) {
+  static const unsigned algos[] = {1, 2, 3, 16, 17, 19, 22, 18};
+  unsigned algo = algos[ctx.c.index(8)]; bool sub = ctx.c.coin(), v5 = ctx.c.prob(1, 3); uint32_t created = ctx.c.prob(1, 8) ? (ctx.c.coin() ? 0u : 0xFFFFFFFFu) : ctx.c.raw(); unsigned tag = sub ? 14 : 6;
+  unsigned maxbits = ctx.thorough ? 4096 : 2048; Bytes lib, material; std::vector<Z> v; std::string desc = std::string(sub ? "subkey" : "primary key") + (v5 ? " v5" : " v4") + " algo " + N(algo);
+  Bytes oid; unsigned kh = 0, ks = 0;
+  if (algo == 1 || algo == 2 || algo == 3 || algo == 16 || algo == 17) {
+    size_t nm = (algo <= 3) ? 2 : (algo == 16 ? 3 : 4); for (size_t i = 0; i < nm; i++) v.push_back(gen_int(ctx, (i == 1 && algo != 16) ? 256 : maxbits, nullptr, true));
+    // argument order of the encoder is (p, q, g, y): RSA uses p=n, q=e; Elgamal uses p, g, y
+    Z p = v[0], q = (algo == 16) ? Z(0) : v[1], g = (algo == 16) ? v[1] : (algo == 17 ? v[2] : Z(0)), y = (algo == 16) ? v[2] : (algo == 17 ? v[3] : Z(0));
+    Mpi mp(p), mq(q), mg(g), my(y);
+    if (sub) { if (v5) PGP::PacketSubEncodeV5(created, (tmcg_openpgp_pkalgo_t)algo, mp, mq, mg, my, lib); else PGP::PacketSubEncode(created, (tmcg_openpgp_pkalgo_t)algo, mp, mq, mg, my, lib); }
+    else { if (v5) PGP::PacketPubEncodeV5(created, (tmcg_openpgp_pkalgo_t)algo, mp, mq, mg, my, lib); else PGP::PacketPubEncode(created, (tmcg_openpgp_pkalgo_t)algo, mp, mq, mg, my, lib); }
+    material = R::mpis(v);
+  } else {
+    size_t ci = ctx.c.index(7); const tmcg_openpgp_byte_t *o = tmcg_openpgp_oidtable[ci].oid; oid.assign(o + 1, o + 1 + o[0]); desc += std::string(" curve ") + tmcg_openpgp_oidtable[ci].name;
+    v.push_back(gen_int(ctx, 1100, nullptr, true)); kh = 8 + (unsigned)ctx.c.index(3); ks = 7 + (unsigned)ctx.c.index(3); Mpi pt(v[0]);
+    if (sub) { if (v5) PGP::PacketSubEncodeV5(created, (tmcg_openpgp_pkalgo_t)algo, oid.size(), oid.data(), pt, (tmcg_openpgp_hashalgo_t)kh, (tmcg_openpgp_skalgo_t)ks, lib); else PGP::PacketSubEncode(created, (tmcg_openpgp_pkalgo_t)algo, oid.size(), oid.data(), pt, (tmcg_openpgp_hashalgo_t)kh, (tmcg_openpgp_skalgo_t)ks, lib); }
+    else { if (v5) PGP::PacketPubEncodeV5(created, (tmcg_openpgp_pkalgo_t)algo, oid.size(), oid.data(), pt, (tmcg_openpgp_hashalgo_t)kh, (tmcg_openpgp_skalgo_t)ks, lib); else PGP::PacketPubEncode(created, (tmcg_openpgp_pkalgo_t)algo, oid.size(), oid.data(), pt, (tmcg_openpgp_hashalgo_t)kh, (tmcg_openpgp_skalgo_t)ks, lib); }
+    material = R::ecc_material(oid, v[0], algo == 18, kh, ks);
+  }
+  Bytes body = R::key_body(v5 ? 5 : 4, created, algo, material);
+  ctx.desc << desc << ", created " << created << ", body " << body.size() << " octets"; ctx.label(std::string(sub ? "subkey" : "primary") + (v5 ? " v5" : " v4")); ctx.label("public-key algorithm " + N(algo));
+  std::string sig = std::string("packet/") + (sub ? "subkey" : "pubkey") + (v5 ? "-v5" : "");
+  if (!same(ctx, sig + "/encode-differs-from-reference", desc, lib, R::packet(tag, body))) return;
+  Dec d(lib);
+  if (d.ret != tag) { ctx.fail(sig + "/own-packet-not-decoded", "PacketDecode returned " + N(d.ret) + " for " + ctx.desc.str()); return; }
+  std::string ds = sig + "/decode-does-not-recover-fields";
+  if (d.c.version != (v5 ? 5 : 4) || d.c.keycreationtime != created || d.c.pkalgo != (int)algo || !d.rest.empty()) ctx.fail(ds, "version " + N(d.c.version) + " created " + N(d.c.keycreationtime) + " algo " + N(d.c.pkalgo) + " for " + ctx.desc.str());
+  if (algo <= 3) { zeq(ctx, ds, "n", d.c.n, v[0]); zeq(ctx, ds, "e", d.c.e, v[1]); }
+  else if (algo == 16) { zeq(ctx, ds, "p", d.c.p, v[0]); zeq(ctx, ds, "g", d.c.g, v[1]); zeq(ctx, ds, "y", d.c.y, v[2]); }
+  else if (algo == 17) { zeq(ctx, ds, "p", d.c.p, v[0]); zeq(ctx, ds, "q", d.c.q, v[1]); zeq(ctx, ds, "g", d.c.g, v[2]); zeq(ctx, ds, "y", d.c.y, v[3]); }
+  else { zeq(ctx, ds, "ecpk", d.c.ecpk, v[0]); if (arr(d.c.curveoid, d.c.curveoidlen) != oid) ctx.fail(ds, "curve OID " + R::hex(arr(d.c.curveoid, d.c.curveoidlen)));
+    if (algo == 18 && (d.c.kdf_hashalgo != (int)kh || d.c.kdf_skalgo != (int)ks)) ctx.fail(ds, "KDF parameters " + N(d.c.kdf_hashalgo) + "/" + N(d.c.kdf_skalgo)); }
+  // fingerprint of the emitted key as the library's users compute it: over the extracted body
+  Bytes ex, f; PGP::PacketBodyExtract(lib, 0, ex); if (v5) PGP::FingerprintComputeV5(ex, f); else PGP::FingerprintCompute(ex, f);
+  same(ctx, std::string("fingerprint/") + (v5 ? "v5" : "v4") + "/differs-from-reference", "fingerprint of the emitted key", f, v5 ? R::fingerprint_v5(body) : R::fingerprint_v4(body));
+  if (ctx.c.prob(1, 20)) { Bytes o; Mpi a(Z(5)); PGP::PacketPubEncode(created, (tmcg_openpgp_pkalgo_t)(ctx.c.coin() ? 19 : 100), a, a, a, a, o); if (!o.empty()) ctx.fail("packet/pubkey/unsupported-algorithm-emits-octets", R::hex(o)); ctx.label("unsupported algorithm emits nothing"); }
+  ctx.nontrivial(desc + N(created) + N(R::crc24(body)));
+}
+VF_SUB(pkt_secret_key, 3000, 40000) {
+  unsigned algo = ctx.c.coin() ? 17 : 16; bool sub = ctx.c.coin(), enc = ctx.c.coin(); unsigned tag = sub ? 7 : 5; uint32_t created = ctx.c.raw();
+  std::vector<Z> pub; size_t nm = algo == 17 ? 4 : 3; for (size_t i = 0; i < nm; i++) pub.push_back(gen_int(ctx, (algo == 17 && i == 1) ? 256 : 1536, nullptr, true));
+  std::string xc; Z x = gen_int(ctx, 512, &xc, true); // (x = 0: the secure-memory MPI decoder refuses the zero MPI, judged in edge_cases)
+  if (enc && R::zbits(x) < 80) { x += Z(1) << 80; xc = "at least 81 bits"; }
+  // (with a pass phrase and a secret of fewer than 10 octets the encoder copies the 32-octet key into a buffer of
+  //  2+len+20 octets; that memory error is judged in edge_cases, not here)
+  std::string pass = enc ? text(ctx, (size_t)ctx.c.range(1, 24), true) : std::string(); Bytes salt = content(ctx, 8), iv = content(ctx, 16);
+  Z p = pub[0], q = algo == 17 ? pub[1] : Z(0), g = algo == 17 ? pub[2] : pub[1], y = algo == 17 ? pub[3] : pub[2]; Mpi mp(p), mq(q), mg(g), my(y), mx(x);
+  ctx.desc << (sub ? "secret subkey" : "secret key") << " algo " << algo << (enc ? ", protected (pass phrase of " + N(pass.size()) + " octets)" : ", unprotected") << ", x " << xc << " " << R::zbits(x) << " bits";
+  ctx.label(std::string(sub ? "secret subkey" : "secret key") + (enc ? ", protected" : ", unprotected")); ctx.label("public-key algorithm " + N(algo));
+  Bytes lib; if (enc) rng_script(R::cat(salt, iv));
+  if (sub) PGP::PacketSsbEncode(created, (tmcg_openpgp_pkalgo_t)algo, mp, mq, mg, my, mx, sec(pass), lib); else PGP::PacketSecEncode(created, (tmcg_openpgp_pkalgo_t)algo, mp, mq, mg, my, mx, sec(pass), lib);
+  rng_script_clear();
+  std::vector<Z> secv(1, x); Bytes body = R::key_body(4, created, algo, R::mpis(pub));
+  R::put(body, enc ? R::secret_sha1_aes256(secv, pass, 8, salt, 0xAC, iv) : R::secret_plain(secv));
+  std::string sig = std::string("packet/") + (sub ? "secret-subkey" : "secret-key") + (enc ? "-protected" : "");
+  if (!same(ctx, sig + "/encode-differs-from-reference", ctx.desc.str(), lib, R::packet(tag, body))) return;
+  Dec d(lib);
+  if (d.ret != tag) { ctx.fail(sig + "/own-packet-not-decoded", "PacketDecode returned " + N(d.ret) + " for " + ctx.desc.str()); return; }
+  std::string ds = sig + "/decode-does-not-recover-fields";
+  if (d.c.version != 4 || d.c.keycreationtime != created || d.c.pkalgo != (int)algo || d.c.s2kconv != (enc ? 254 : 0)) ctx.fail(ds, "version " + N(d.c.version) + " created " + N(d.c.keycreationtime) + " algo " + N(d.c.pkalgo) + " usage " + N(d.c.s2kconv));
+  zeq(ctx, ds, "p", d.c.p, pub[0]); if (algo == 17) { zeq(ctx, ds, "q", d.c.q, pub[1]); zeq(ctx, ds, "g", d.c.g, pub[2]); zeq(ctx, ds, "y", d.c.y, pub[3]); } else { zeq(ctx, ds, "g", d.c.g, pub[1]); zeq(ctx, ds, "y", d.c.y, pub[2]); }
+  if (!enc) zeq(ctx, ds, "x", d.c.x, x);
+  else {
+    Bytes m = R::mpi(x), ct = R::cfb_encrypt(GCRY_CIPHER_AES256, R::s2k(8, 3, salt, 0xAC, pass, 32), iv, R::cat(m, R::digest(GCRY_MD_SHA1, m)));
+    if (d.c.skalgo != 9 || d.c.s2k_type != 3 || d.c.s2k_hashalgo != 8 || d.c.s2k_count != 0xAC || arr(d.c.s2k_salt, 8) != salt || arr(d.c.iv, 16) != iv || arr(d.c.encdata, d.c.encdatalen) != ct)
+      ctx.fail(ds, "cipher " + N(d.c.skalgo) + " s2k " + N(d.c.s2k_type) + "/" + N(d.c.s2k_hashalgo) + "/" + N(d.c.s2k_count) + " salt " + R::hex(arr(d.c.s2k_salt, 8)) + " encrypted part " + N(d.c.encdatalen) + " octets");
+  }
+  ctx.nontrivial(ctx.desc.str() + N(created) + N(R::crc24(body)));
+}
+VF_SUB(pkt_pkesk, 3000, 60000) {
+  unsigned kind = (unsigned)ctx.c.index(3); Bytes keyid = ctx.c.prob(1, 6) ? Bytes(8, 0) : content(ctx, 8), lib, fields; unsigned algo; std::vector<Z> v; Bytes rkw;
+  // the decoder refuses PKESK bodies shorter than 16 octets (an RSA or ECDH value below 2^24): such values do not occur, excluded
+  if (kind == 0) { algo = 1; v.push_back(gen_int(ctx, 4096, nullptr, true)); if (R::zbits(v[0]) < 33) v[0] += Z(1) << 40; Mpi me(v[0]); PGP::PacketPkeskEncode(keyid, me, lib); fields = R::mpis(v); }
+  else if (kind == 1) { algo = 16; v.push_back(gen_int(ctx, 3072, nullptr, true)); v.push_back(gen_int(ctx, 3072, nullptr, true)); Mpi gk(v[0]), myk(v[1]); PGP::PacketPkeskEncode(keyid, gk, myk, lib); fields = R::mpis(v); }
+  else { algo = 18; v.push_back(gen_int(ctx, 1100, nullptr, true)); if (R::zbits(v[0]) < 33) v[0] += Z(1) << 40; rkw = content(ctx, (size_t)(ctx.c.prob(1, 5) ? ctx.c.range(1, 254) : 8 * ctx.c.range(3, 7))); tmcg_openpgp_byte_t buf[256]; memset(buf, 0, sizeof buf); memcpy(buf, rkw.data(), rkw.size());
+    Mpi e(v[0]); PGP::PacketPkeskEncode(keyid, e, rkw.size(), buf, lib); fields = R::mpis(v); R::put8(fields, (unsigned)rkw.size()); R::put(fields, rkw); }
+  ctx.desc << "PKESK algo " << algo << ", key id " << R::hex(keyid) << ", first MPI " << R::zbits(v[0]) << " bits" << (kind == 2 ? ", wrapped key " + N(rkw.size()) + " octets" : std::string()); ctx.label("PKESK algorithm " + N(algo)); if (keyid == Bytes(8, 0)) ctx.label("wild card key id");
+  Bytes ref = R::packet(1, R::pkesk_body(keyid, algo, fields));
+  if (!same(ctx, "packet/pkesk/encode-differs-from-reference", ctx.desc.str(), lib, ref)) return;
+  Dec d(lib); std::string ds = "packet/pkesk/decode-does-not-recover-fields";
+  if (d.ret != 1) { ctx.fail("packet/pkesk/own-packet-not-decoded", "PacketDecode returned " + N(d.ret) + " for " + ctx.desc.str()); return; }
+  if (d.c.version != 3 || d.c.pkalgo != (int)algo || arr(d.c.keyid, 8) != keyid) ctx.fail(ds, "version " + N(d.c.version) + " algo " + N(d.c.pkalgo) + " key id " + R::hex(arr(d.c.keyid, 8)));
+  if (kind == 0) zeq(ctx, ds, "me", d.c.me, v[0]); else if (kind == 1) { zeq(ctx, ds, "gk", d.c.gk, v[0]); zeq(ctx, ds, "myk", d.c.myk, v[1]); }
+  else { zeq(ctx, ds, "ecepk", d.c.ecepk, v[0]); if (d.c.rkwlen != rkw.size() || arr(d.c.rkw, d.c.rkwlen) != rkw) ctx.fail(ds, "wrapped key of " + N(d.c.rkwlen) + " octets"); }
+  ctx.nontrivial(N(kind) + R::hex(keyid) + N(R::crc24(ref)));
+}
+VF_SUB(pkt_skesk_decode, 2500, 50000) { // the library has no SKESK encoder: reference-built packets, decoded fields
+  bool v5 = ctx.c.coin(); static const unsigned syms[] = {2, 3, 7, 8, 9, 10, 11, 12, 13}; unsigned sym = syms[ctx.c.index(9)], mode = ctx.c.weighted({1, 2, 4}) == 0 ? 0 : (ctx.c.coin() ? 1 : 3);
+  unsigned hash = S2K_HASHES[ctx.c.index(7)], cnt = ctx.c.raw() & 0xFF, aead = 1 + (unsigned)ctx.c.index(2); Bytes salt = content(ctx, 8), iv = content(ctx, aead == 1 ? 16 : 15);
+  Bytes esk = content(ctx, v5 ? (size_t)ctx.c.range(17, 48) : (ctx.c.coin() ? 0 : (size_t)ctx.c.range(1, 33)));
+  Bytes spec = R::s2k_specifier(mode, hash, salt, cnt), body = v5 ? R::skesk5_body(sym, aead, spec, iv, esk) : R::skesk4_body(sym, spec, esk), pkt = ctx.c.prob(1, 4) ? R::old_packet(3, body, 0) : R::packet(3, body);
+  ctx.desc << "SKESK v" << (v5 ? 5 : 4) << " cipher " << sym << " s2k mode " << mode << " hash " << hash_name(hash) << (v5 ? " aead " + N(aead) : std::string()) << ", encrypted key " << esk.size() << " octets";
+  ctx.label(std::string("SKESK v") + (v5 ? "5" : "4")); ctx.label("s2k mode " + N(mode)); ctx.label(esk.empty() ? "no encrypted session key" : "with encrypted session key");
+  Dec d(pkt);
+  if (d.ret != 3) { ctx.fail("packet/skesk/valid-reference-packet-refused", "PacketDecode returned " + N(d.ret) + " for " + ctx.desc.str() + " packet " + R::hex(pkt, 64)); return; }
+  bool ok = d.c.version == (v5 ? 5 : 4) && d.c.skalgo == (int)sym && d.c.s2k_type == (int)mode && d.c.s2k_hashalgo == (int)hash && arr(d.c.encdata, d.c.encdatalen) == esk;
+  if (mode != 0 && arr(d.c.s2k_salt, 8) != salt) ok = false; if (mode == 3 && d.c.s2k_count != cnt) ok = false; if (v5 && (d.c.aeadalgo != (int)aead || arr(d.c.iv, iv.size()) != iv)) ok = false;
+  if (!ok) ctx.fail("packet/skesk/decoded-fields-differ-from-reference-input", "version " + N(d.c.version) + " cipher " + N(d.c.skalgo) + " s2k " + N(d.c.s2k_type) + "/" + N(d.c.s2k_hashalgo) + "/" + N(d.c.s2k_count) + " key " + N(d.c.encdatalen) + " octets for " + ctx.desc.str());
+  ctx.nontrivial(R::hex(pkt, 80));
+}
+VF_SUB(pkt_encrypted_containers, 4000, 80000) {
+  unsigned kind = (unsigned)ctx.c.index(4); size_t L;
+  switch (ctx.c.weighted({5, 3, 1})) { case 0: L = (size_t)ctx.c.range(1, 300); break; case 1: { static const size_t b[] = {191, 192, 8383, 8384}; L = b[ctx.c.index(4)] + (size_t)ctx.c.range(0, 40) - 36; break; } default: L = (size_t)ctx.c.small(300, 40000); break; }
+  std::string cc; Bytes data = content(ctx, kind == 2 ? 20 : L, &cc), lib, ref, got; unsigned tag; std::string name, extra;
+  if (kind == 0) { name = "sed"; tag = 9; PGP::PacketSedEncode(data, lib); ref = R::packet(9, data); }
+  else if (kind == 1) { name = "seipd"; tag = 18; PGP::PacketSeipdEncode(data, lib); ref = R::packet(18, R::seipd_body(data)); }
+  else if (kind == 2) { name = "mdc"; tag = 19; PGP::PacketMdcEncode(data, lib); ref = Bytes{0xD3, 0x14}; R::put(ref, data); }
+  else { name = "aead"; tag = 20; static const unsigned s[] = {7, 8, 9, 10, 11, 12, 13}; unsigned sym = s[ctx.c.index(7)], aead = 1 + (unsigned)ctx.c.index(2), chunk = (unsigned)ctx.c.range(0, 56); Bytes iv = content(ctx, aead == 1 ? 16 : 15);
+    PGP::PacketAeadEncode((tmcg_openpgp_skalgo_t)sym, (tmcg_openpgp_aeadalgo_t)aead, (tmcg_openpgp_byte_t)chunk, iv, data, lib); ref = R::packet(20, R::aead_body(sym, aead, chunk, iv, data));
+    Dec d(lib); if (d.ret != 20 || d.c.version != 1 || d.c.skalgo != (int)sym || d.c.aeadalgo != (int)aead || d.c.chunksize != chunk || arr(d.c.iv, iv.size()) != iv || arr(d.c.encdata, d.c.encdatalen) != data) extra = "PacketDecode returned " + N(d.ret) + " cipher " + N(d.c.skalgo) + " aead " + N(d.c.aeadalgo) + " chunk " + N(d.c.chunksize) + " data " + N(d.c.encdatalen); }
+  ctx.desc << name << " packet, " << data.size() << " octets (" << cc << ")"; ctx.label(name);
+  if (!same(ctx, "packet/" + name + "/encode-differs-from-reference", ctx.desc.str(), lib, ref)) return;
+  if (kind <= 1) { Dec d(lib); if (d.ret != tag || arr(d.c.encdata, d.c.encdatalen) != data || (kind == 1 && d.c.version != 1) || !d.rest.empty()) extra = "PacketDecode returned " + N(d.ret) + " data " + N(d.c.encdatalen) + " octets"; }
+  if (kind == 2) { Dec d(lib); if (d.ret != 19 || arr(d.c.mdc_hash, 20) != data) extra = "PacketDecode returned " + N(d.ret); }
+  if (!extra.empty()) ctx.fail("packet/" + name + "/decode-does-not-recover-fields", extra + " for " + ctx.desc.str());
+  ctx.nontrivial(name + N(R::crc24(ref)) + N(ref.size()));
+}
+VF_SUB(pkt_misc_decode, 2000, 20000) { // one-pass signature, marker, trust, compressed: reference-built, decoded
+  unsigned kind = (unsigned)ctx.c.index(3); bool old = ctx.c.prob(1, 3);
+  if (kind == 0) {
+    unsigned st = ctx.c.coin() ? 0 : 1, h = S2K_HASHES[ctx.c.index(9)], pk = ctx.c.coin() ? 1 : (ctx.c.coin() ? 17 : 22), nested = (unsigned)ctx.c.index(2); Bytes kid = content(ctx, 8), body = R::onepass_body(st, h, pk, kid, nested);
+    ctx.desc << "one-pass signature type " << st << " hash " << h << " algo " << pk << " nested " << nested; ctx.label("one-pass signature");
+    Dec d(old ? R::old_packet(4, body, 0) : R::packet(4, body));
+    if (d.ret != 4 || d.c.version != 3 || d.c.type != (int)st || d.c.hashalgo != (int)h || d.c.pkalgo != (int)pk || arr(d.c.signingkeyid, 8) != kid || d.c.nestedsignature != nested) ctx.fail("packet/onepass/decoded-fields-differ-from-reference-input", "PacketDecode returned " + N(d.ret) + " for " + ctx.desc.str());
+    ctx.nontrivial(R::hex(body));
+  } else if (kind == 1) {
+    Bytes body{'P', 'G', 'P'}; ctx.desc << "marker packet"; ctx.label("marker"); Dec d(old ? R::old_packet(10, body, 0) : R::packet(10, body));
+    if (d.ret != 10 || !d.c.marker) ctx.fail("packet/marker/valid-reference-packet-refused", "PacketDecode returned " + N(d.ret));
+    ctx.nontrivial(N(old));
+  } else {
+    Bytes body = content(ctx, (size_t)ctx.c.range(1, 40)), next = R::packet(13, Bytes(3, 'z')); ctx.desc << "trust packet of " << body.size() << " octets followed by a user id"; ctx.label("trust packet is skipped");
+    Dec d(R::cat(old ? R::old_packet(12, body, 0) : R::packet(12, body), next));
+    if (d.ret != 12 || d.rest != next) ctx.fail("packet/trust/not-skipped-exactly", "PacketDecode returned " + N(d.ret) + ", " + N(d.rest.size()) + " octets left");
+    ctx.nontrivial(R::hex(body));
+  }
+}
+
+// ---------------------------------------------------------------------------
+// signatures: subpacket encoder, the PacketSigPrepare* helpers, PacketSigEncode, decoder
+VF_SUB(subpacket_encode, 2500, 50000) {
+  unsigned type = (unsigned)ctx.c.range(0, 127); bool crit = ctx.c.coin(); size_t L;
+  switch (ctx.c.weighted({4, 4, 1})) { case 0: L = (size_t)ctx.c.range(0, 120); break; case 1: { static const size_t b[] = {190, 191, 8382, 8383, 16318, 16319}; L = b[ctx.c.index(6)] + (size_t)ctx.c.range(0, 4) - 2; break; } default: L = (size_t)ctx.c.small(120, 30000); break; }
+  Bytes body = content(ctx, L), lib; PGP::SubpacketEncode((tmcg_openpgp_byte_t)type, crit, body, lib);
+  ctx.desc << "subpacket type " << type << (crit ? " critical" : "") << ", body " << L << " octets"; ctx.label(L + 1 < 192 ? "one-octet length" : (L + 1 < 8384 ? "two-octet length" : (L + 1 <= 16319 ? "length 8384..16319 (two- or five-octet form allowed)" : "five-octet length")));
+  std::vector<R::Sub> ps;
+  if (!R::parse_subpackets(lib, ps) || ps.size() != 1 || ps[0].type != type || ps[0].critical != crit || ps[0].body != body) ctx.fail("subpacket/encode/reference-parser-recovers-something-else", ctx.desc.str() + ": library " + R::hex(lib, 24));
+  if (L + 1 < 8384) same(ctx, "subpacket/encode/differs-from-reference", ctx.desc.str(), lib, R::subpacket(type, crit, body));
+  ctx.nontrivial(N(type) + N(crit) + N(L) + N(R::crc24(body)));
+}
+// expectations on the decoded context, one reference subpacket at a time
+static void expect_sub(Ctx &ctx, const std::string &sig, Dec &d, const R::Sub &s, size_t &nnot, size_t &nemb, size_t &nrcp) {
+  const tmcg_openpgp_packet_ctx_t &c = d.c; const Bytes &b = s.body; bool ok = true;
+  auto u32 = [&](size_t o) { return ((uint32_t)b[o] << 24) | ((uint32_t)b[o + 1] << 16) | ((uint32_t)b[o + 2] << 8) | b[o + 3]; };
+  auto str = [&](const tmcg_openpgp_byte_t *f, size_t cap) { return arr(f, b.size()) == b && (b.size() >= cap || f[b.size()] == 0); };
+  switch (s.type) {
+    case 2: ok = c.sigcreationtime == u32(0); break; case 3: ok = c.sigexpirationtime == u32(0); break; case 9: ok = c.keyexpirationtime == u32(0); break;
+    case 4: ok = c.exportablecertification == (b[0] == 1); break; case 7: ok = c.revocable == (b[0] == 1); break; case 25: ok = c.primaryuserid == (b[0] == 1); break;
+    case 5: ok = c.trustlevel == b[0] && c.trustamount == b[1]; break; case 6: ok = str(c.trustregex, sizeof c.trustregex); break;
+    case 11: ok = arr(c.psa, c.psalen) == b; break; case 21: ok = arr(c.pha, c.phalen) == b; break; case 22: ok = arr(c.pca, c.pcalen) == b; break; case 34: ok = arr(c.paa, c.paalen) == b; break;
+    case 12: ok = c.revocationkey_class == b[0] && c.revocationkey_pkalgo == (int)b[1] && arr(c.revocationkey_fingerprint, b.size() - 2) == Bytes(b.begin() + 2, b.end()); break;
+    case 16: ok = arr(c.issuer, 8) == b; break;
+    case 20: { size_t nl = ((size_t)b[4] << 8) | b[5]; ok = nnot < d.notations.size() && d.notations[nnot].first == Bytes(b.begin() + 8, b.begin() + 8 + nl) && d.notations[nnot].second == Bytes(b.begin() + 8 + nl, b.end()); nnot++; break; }
+    case 23: ok = str(c.keyserverpreferences, sizeof c.keyserverpreferences); break; case 24: ok = str(c.preferedkeyserver, sizeof c.preferedkeyserver); break;
+    case 26: ok = str(c.policyuri, sizeof c.policyuri); break; case 28: ok = str(c.signersuserid, sizeof c.signersuserid); break;
+    case 27: ok = arr(c.keyflags, c.keyflagslen) == b; break; case 30: ok = arr(c.features, c.featureslen) == b; break;
+    case 29: ok = c.revocationcode == (int)b[0] && arr(c.revocationreason, b.size() - 1) == Bytes(b.begin() + 1, b.end()); break;
+    case 31: ok = c.signaturetarget_pkalgo == (int)b[0] && c.signaturetarget_hashalgo == (int)b[1] && arr(c.signaturetarget_hash, b.size() - 2) == Bytes(b.begin() + 2, b.end()); break;
+    case 32: ok = arr(c.embeddedsignature, c.embeddedsignaturelen) == b && nemb < d.esigs.size() && d.esigs[nemb] == b; nemb++; break;
+    case 33: ok = c.issuerkeyversion == b[0] && arr(c.issuerfingerprint, b.size() - 1) == Bytes(b.begin() + 1, b.end()); break;
+    case 35: ok = nrcp < d.rfprs.size() && d.rfprs[nrcp] == Bytes(b.begin() + 1, b.end()); nrcp++; break;
+    case 37: ok = arr(c.attestedcertifications, c.attestedcertificationslen) == b; break;
+    default: break; // unknown types are ignored
+  }
+  if (!ok) ctx.fail(sig, "subpacket type " + N(s.type) + " body " + R::hex(b, 40) + " is not reflected in the decoded context [" + ctx.desc.str() + "]");
+}
+static void expect_signature(Ctx &ctx, const std::string &name, const Bytes &pkt, unsigned version, unsigned sigtype, unsigned pk, unsigned hash, const Bytes &hashed_area, const Bytes &left, const std::vector<Z> &m) {
+  Dec d(pkt); std::string ds = "packet/signature/" + name + "/decode-does-not-recover-fields";
+  if (d.ret != 2) { ctx.fail("packet/signature/" + name + "/not-decoded", "PacketDecode returned " + N(d.ret) + " for " + ctx.desc.str() + " packet " + R::hex(pkt, 80)); return; }
+  if (d.c.version != version || d.c.type != (int)sigtype || d.c.pkalgo != (int)pk || d.c.hashalgo != (int)hash || arr(d.c.left, 2) != left || !d.rest.empty())
+    ctx.fail(ds, "version " + N(d.c.version) + " type " + N(d.c.type) + " algo " + N(d.c.pkalgo) + " hash " + N(d.c.hashalgo) + " left " + R::hex(arr(d.c.left, 2)) + " for " + ctx.desc.str());
+  if (version != 3) {
+    same(ctx, ds, "hashed subpacket data", arr(d.c.hspd, d.c.hspdlen), hashed_area);
+    std::vector<R::Sub> subs; if (!R::parse_subpackets(hashed_area, subs)) { ctx.fail("harness/reference-cannot-parse-its-own-subpackets", ctx.desc.str()); return; }
+    size_t a = 0, b = 0, c = 0; for (auto &s : subs) expect_sub(ctx, ds, d, s, a, b, c);
+  }
+  if (pk == 1 || pk == 3) zeq(ctx, ds, "md", d.c.md, m[0]); else { zeq(ctx, ds, "r", d.c.r, m[0]); zeq(ctx, ds, "s", d.c.s, m[1]); }
+}
+static Bytes issuer_keyid(const Bytes &issuer) { if (issuer.size() == 20) return Bytes(issuer.end() - 8, issuer.end()); if (issuer.size() == 8) return issuer; return Bytes(); }
+static tmcg_openpgp_notations_t gen_notations(Ctx &ctx, Bytes &area_part) {
+  tmcg_openpgp_notations_t n; unsigned k = (unsigned)ctx.c.weighted({3, 2, 1});
+  for (unsigned i = 0; i < k; i++) { std::string nm = text(ctx, (size_t)ctx.c.range(1, 30)) + "@example.org", vl = text(ctx, (size_t)ctx.c.range(0, 200), true); tmcg_openpgp_notation_t t; t.first.assign(nm.begin(), nm.end()); t.second.assign(vl.begin(), vl.end()); n.push_back(t);
+    R::put(area_part, R::subpacket(20, false, R::notation_body(true, t.first, t.second))); }
+  return n;
+}
+VF_SUB(pkt_signature, 5000, 100000) {
+  unsigned kind = (unsigned)ctx.c.index(9); static const unsigned pks[] = {1, 3, 17, 19, 22}; unsigned pk = pks[ctx.c.index(5)], hash = S2K_HASHES[ctx.c.index(9)];
+  uint32_t sigtime = ctx.c.prob(1, 10) ? 0xFFFFFFFFu : ctx.c.raw(), exptime = ctx.c.coin() ? 0 : (uint32_t)ctx.c.range(1, 0xFFFFFFFFULL);
+  Bytes issuer; { size_t w = ctx.c.weighted({3, 4, 1}); issuer = content(ctx, w == 0 ? 8 : (w == 1 ? 20 : (size_t)ctx.c.range(0, 7))); }
+  Bytes flags = content(ctx, (size_t)ctx.c.range(0, 4)); std::string policy = ctx.c.coin() ? "" : "https://example.org/" + text(ctx, (size_t)(ctx.c.prob(1, 4) ? ctx.c.range(165, 175) : ctx.c.range(0, 60)));
+  Bytes kid = issuer_keyid(issuer), area, lib; unsigned sigtype = 0, version = 4; std::string name; bool bis = ctx.c.coin();
+  auto add = [&](unsigned t, bool crit, const Bytes &b) { R::put(area, R::subpacket(t, crit, b)); };
+  auto add_fpr = [&](const Bytes &f) { Bytes b; b.push_back(f.size() == 20 ? 4 : (f.size() == 32 ? 5 : 0)); R::put(b, f); add(33, false, b); };
+  Bytes pol(policy.begin(), policy.end());
+  // the preference lists below are the library's documented policy; their encoding is the reference's
+  Bytes paa; if (GCRYPT_VERSION_NUMBER >= 0x010900) paa.push_back(1); paa.push_back(2);
+  auto prefs_tail = [&]() { add(21, false, Bytes{10, 9, 8}); add(22, false, Bytes{1}); add(23, false, Bytes{0x80}); add(27, false, flags); add(30, false, Bytes{(uint8_t)(bis ? 3 : 1)}); if (issuer.size() == 20) add_fpr(issuer); if (bis) add(34, false, paa); };
+  switch (kind) {
+    case 0: { name = "self-signature"; static const unsigned ty[] = {0x10, 0x11, 0x12, 0x13, 0x18, 0x19, 0x1F}; sigtype = ty[ctx.c.index(7)];
+      add(2, false, R::time_body(sigtime)); if (exptime) add(9, false, R::time_body(exptime)); add(11, false, Bytes{9, 10}); if (!kid.empty()) add(16, false, kid); prefs_tail();
+      PGP::PacketSigPrepareSelfSignature((tmcg_openpgp_signature_t)sigtype, (tmcg_openpgp_pkalgo_t)pk, (tmcg_openpgp_hashalgo_t)hash, sigtime, exptime, flags, issuer, bis, lib); break; }
+    case 1: { name = "designated-revoker"; sigtype = 0x1F; Bytes rev = ctx.c.coin() ? content(ctx, 20) : Bytes(); unsigned pk2 = pks[ctx.c.index(5)];
+      add(2, false, R::time_body(sigtime)); add(11, false, Bytes{9, 10}); if (!rev.empty()) { Bytes b{0x80, (uint8_t)pk2}; R::put(b, rev); add(12, true, b); } if (!kid.empty()) add(16, false, kid); prefs_tail();
+      PGP::PacketSigPrepareDesignatedRevoker((tmcg_openpgp_pkalgo_t)pk, (tmcg_openpgp_hashalgo_t)hash, sigtime, flags, issuer, (tmcg_openpgp_pkalgo_t)pk2, rev, bis, lib); break; }
+    case 2: { name = "detached"; sigtype = (unsigned)ctx.c.index(3); if (ctx.c.prob(1, 4)) { issuer = content(ctx, 32); kid.clear(); }
+      add(2, false, R::time_body(sigtime)); if (exptime) add(3, false, R::time_body(exptime)); if (!kid.empty()) add(16, false, kid); if (!pol.empty()) add(26, false, pol); if (issuer.size() == 20 || issuer.size() == 32) add_fpr(issuer);
+      PGP::PacketSigPrepareDetachedSignature((tmcg_openpgp_signature_t)sigtype, (tmcg_openpgp_pkalgo_t)pk, (tmcg_openpgp_hashalgo_t)hash, sigtime, exptime, policy, issuer, lib); break; }
+    case 3: { name = "detached-v5"; version = 5; sigtype = (unsigned)ctx.c.index(3); issuer = content(ctx, ctx.c.coin() ? 32 : 20);
+      add(2, false, R::time_body(sigtime)); if (exptime) add(3, false, R::time_body(exptime)); if (!pol.empty()) add(26, false, pol); add_fpr(issuer);
+      PGP::PacketSigPrepareDetachedSignatureV5((tmcg_openpgp_signature_t)sigtype, (tmcg_openpgp_pkalgo_t)pk, (tmcg_openpgp_hashalgo_t)hash, sigtime, exptime, policy, issuer, lib); break; }
+    case 4: { name = "revocation"; static const unsigned ty[] = {0x20, 0x28, 0x30}; sigtype = ty[ctx.c.index(3)]; static const unsigned rc[] = {0, 1, 2, 3, 32, 100, 110}; unsigned code = rc[ctx.c.index(7)]; std::string reason = text(ctx, (size_t)(ctx.c.prob(1, 4) ? ctx.c.range(186, 194) : ctx.c.range(0, 80)), true);
+      add(2, false, R::time_body(sigtime)); if (!kid.empty()) add(16, false, kid); { Bytes b; b.push_back(code); R::put(b, reason); add(29, false, b); } if (issuer.size() == 20) add_fpr(issuer);
+      PGP::PacketSigPrepareRevocationSignature((tmcg_openpgp_signature_t)sigtype, (tmcg_openpgp_pkalgo_t)pk, (tmcg_openpgp_hashalgo_t)hash, sigtime, (tmcg_openpgp_revcode_t)code, reason, issuer, lib); break; }
+    case 5: { name = "certification"; sigtype = 0x10 + (unsigned)ctx.c.index(4);
+      add(2, false, R::time_body(sigtime)); if (exptime) add(3, false, R::time_body(exptime)); if (!kid.empty()) add(16, false, kid); if (!pol.empty()) add(26, false, pol); if (issuer.size() == 20) add_fpr(issuer);
+      PGP::PacketSigPrepareCertificationSignature((tmcg_openpgp_signature_t)sigtype, (tmcg_openpgp_pkalgo_t)pk, (tmcg_openpgp_hashalgo_t)hash, sigtime, exptime, policy, issuer, lib); break; }
+    case 6: case 7: { name = kind == 6 ? "timestamp-target" : "timestamp-embedded"; sigtype = 0x40; unsigned tpk = pks[ctx.c.index(5)], th = S2K_HASHES[ctx.c.index(9)]; Bytes thash = content(ctx, gcry_md_get_algo_dlen(R::gcry_hash_id(th))), emb = content(ctx, (size_t)ctx.c.range(20, 400));
+      add(2, true, R::time_body(sigtime)); add(7, true, Bytes{0}); if (!kid.empty()) add(16, true, kid); Bytes np; tmcg_openpgp_notations_t nots = gen_notations(ctx, np); R::put(area, np); if (!pol.empty()) add(26, false, pol);
+      if (kind == 6) { Bytes b{(uint8_t)tpk, (uint8_t)th}; R::put(b, thash); add(31, true, b); } else add(32, true, emb); if (issuer.size() == 20) add_fpr(issuer);
+      if (kind == 6) PGP::PacketSigPrepareTimestampSignature((tmcg_openpgp_pkalgo_t)pk, (tmcg_openpgp_hashalgo_t)hash, sigtime, policy, issuer, (tmcg_openpgp_pkalgo_t)tpk, (tmcg_openpgp_hashalgo_t)th, thash, nots, lib);
+      else PGP::PacketSigPrepareTimestampSignature((tmcg_openpgp_pkalgo_t)pk, (tmcg_openpgp_hashalgo_t)hash, sigtime, policy, issuer, emb, nots, lib); break; }
+    default: { name = "attestation"; sigtype = 0x16; Bytes att = content(ctx, (size_t)ctx.c.range(0, 12) * gcry_md_get_algo_dlen(R::gcry_hash_id(hash)));
+      add(2, true, R::time_body(sigtime)); if (!kid.empty()) add(16, true, kid); Bytes np; tmcg_openpgp_notations_t nots = gen_notations(ctx, np); R::put(area, np); if (!pol.empty()) add(26, false, pol); if (issuer.size() == 20) add_fpr(issuer); add(37, true, att);
+      PGP::PacketSigPrepareAttestationSignature((tmcg_openpgp_pkalgo_t)pk, (tmcg_openpgp_hashalgo_t)hash, sigtime, policy, issuer, att, nots, lib); break; }
+  }
+  ctx.desc << name << " signature v" << version << " type " << sigtype << " algo " << pk << " hash " << hash_name(hash) << ", issuer " << issuer.size() << " octets, hashed area " << area.size() << " octets";
+  ctx.label("helper: " + name); ctx.label("signature algorithm " + N(pk)); ctx.label("issuer of " + N(issuer.size() > 8 ? issuer.size() : (issuer.size() == 8 ? 8 : 0)) + " octets");
+  Bytes hp = R::sig4_hashed_part(version, sigtype, pk, hash, area);
+  if (!same(ctx, "packet/signature/" + name + "/hashed-part-differs-from-reference", ctx.desc.str(), lib, hp)) return;
+  Bytes left = content(ctx, 2), pkt; std::vector<Z> m; m.push_back(gen_int(ctx, 4096, nullptr, true));
+  if (pk == 1 || pk == 3) { Mpi s(m[0]); PGP::PacketSigEncode(lib, left, s, pkt); } else { m.push_back(gen_int(ctx, 600, nullptr, true)); Mpi r(m[0]), s(m[1]); PGP::PacketSigEncode(lib, left, r, s, pkt); }
+  if (!same(ctx, "packet/signature/encode-differs-from-reference", ctx.desc.str(), pkt, R::packet(2, R::sig4_body(hp, Bytes(), left, R::mpis(m))))) return;
+  expect_signature(ctx, name, pkt, version, sigtype, pk, hash, area, left, m);
+  ctx.nontrivial(name + N(R::crc24(pkt)) + N(pkt.size()));
+}
+// reference-built signatures (v3, v4, v5) with generated subpacket sets, decoded by the library
+static Bytes gen_sub_body(Ctx &ctx, unsigned t) {
+  switch (t) {
+    case 2: case 3: case 9: return R::time_body(ctx.c.raw());
+    case 4: case 7: case 25: return Bytes{(uint8_t)ctx.c.index(2)};
+    case 5: return content(ctx, 2);
+    case 6: case 24: case 26: case 28: { std::string s = text(ctx, (size_t)(ctx.c.prob(1, 3) ? ctx.c.range(188, 194) : ctx.c.range(0, 90))); return Bytes(s.begin(), s.end()); }
+    case 11: case 21: case 22: case 34: { Bytes b = content(ctx, (size_t)ctx.c.range(0, 8)); for (auto &x : b) x = 1 + x % 20; return b; }
+    case 12: { Bytes b{(uint8_t)(0x80 | (ctx.c.coin() ? 0x40 : 0)), (uint8_t)17}; R::put(b, content(ctx, ctx.c.coin() ? 20 : 32)); return b; }
+    case 16: return content(ctx, 8);
+    case 20: { std::string nm = text(ctx, (size_t)ctx.c.range(1, 40)); Bytes v = content(ctx, (size_t)ctx.c.range(0, 300)); return R::notation_body(ctx.c.coin(), Bytes(nm.begin(), nm.end()), v); }
+    case 23: case 27: case 30: { Bytes b = content(ctx, (size_t)ctx.c.range(1, 4)); for (auto &x : b) x |= 1; return b; }
+    case 29: { Bytes b{(uint8_t)ctx.c.index(4)}; R::put(b, text(ctx, (size_t)ctx.c.range(0, 100))); return b; }
+    case 31: { Bytes b{17, 8}; R::put(b, content(ctx, 32)); return b; }
+    case 32: return content(ctx, (size_t)ctx.c.range(12, 300));
+    case 33: case 35: { bool v5 = ctx.c.coin(); Bytes b{(uint8_t)(v5 ? 5 : 4)}; R::put(b, content(ctx, v5 ? 32 : 20)); for (size_t i = 1; i < b.size(); i++) b[i] |= 1; return b; }
+    case 37: return content(ctx, 32 * (size_t)ctx.c.range(0, 6));
+    default: return content(ctx, (size_t)ctx.c.range(0, 60));
+  }
+}
+VF_SUB(sig_decode_reference, 5000, 100000) {
+  static const unsigned pks[] = {1, 3, 17, 19, 22}; unsigned pk = pks[ctx.c.index(5)], hash = S2K_HASHES[ctx.c.index(9)], version = ctx.c.weighted({1, 4, 2}) == 0 ? 3 : (ctx.c.coin() ? 4 : 5), sigtype = ctx.c.coin() ? 0 : 0x13;
+  Bytes left = content(ctx, 2); std::vector<Z> m; m.push_back(gen_int(ctx, 2048, nullptr, true)); if (!(pk == 1 || pk == 3)) m.push_back(gen_int(ctx, 600, nullptr, true));
+  Bytes body, area, unhashed; std::string ucls = "empty unhashed area";
+  if (version == 3) { uint32_t t = ctx.c.raw(); Bytes kid = content(ctx, 8); body = R::sig3_body(sigtype, t, kid, pk, hash, left, R::mpis(m)); ctx.desc << "v3 signature"; ctx.label("v3");
+    Bytes pkt = ctx.c.coin() ? R::old_packet(2, body, body.size() < 256 ? 0 : 1) : R::packet(2, body); Dec d(pkt);
+    if (d.ret != 2 || d.c.version != 3 || d.c.type != (int)sigtype || d.c.sigcreationtime != t || arr(d.c.issuer, 8) != kid || d.c.pkalgo != (int)pk || d.c.hashalgo != (int)hash || arr(d.c.left, 2) != left) ctx.fail("packet/signature/v3/decoded-fields-differ-from-reference-input", "PacketDecode returned " + N(d.ret) + " for " + R::hex(pkt, 60));
+    else { if (pk == 1 || pk == 3) zeq(ctx, "packet/signature/v3/decoded-fields-differ-from-reference-input", "md", d.c.md, m[0]); else { zeq(ctx, "packet/signature/v3/decoded-fields-differ-from-reference-input", "r", d.c.r, m[0]); zeq(ctx, "packet/signature/v3/decoded-fields-differ-from-reference-input", "s", d.c.s, m[1]); } }
+    ctx.nontrivial(R::hex(pkt, 100)); return; }
+  static const unsigned known[] = {2, 3, 4, 5, 6, 7, 9, 11, 12, 16, 20, 21, 22, 23, 24, 25, 26, 27, 28, 29, 30, 31, 32, 33, 34, 35, 37};
+  unsigned n = (unsigned)ctx.c.range(1, 10); std::set<unsigned> used; std::string types; bool has16 = false;
+  for (unsigned i = 0; i < n; i++) {
+    unsigned t; bool unknown = ctx.c.prob(1, 10); if (unknown) { static const unsigned u[] = {1, 8, 10, 13, 14, 15, 17, 18, 19, 36, 38, 39, 60, 99, 100, 110, 127}; t = u[ctx.c.index(17)]; } else t = known[ctx.c.index(27)];
+    if (used.count(t) && t != 20 && t != 35) continue; used.insert(t); if (t == 16) has16 = true;
+    bool crit = !unknown && t != 20 && ctx.c.prob(1, 4); R::put(area, R::subpacket(t, crit, gen_sub_body(ctx, t))); types += N(t) + (crit ? "! " : " "); ctx.label("subpacket type " + (unknown ? std::string("unknown, not critical") : N(t)));
+  }
+  Bytes ukid;
+  switch (ctx.c.weighted({3, 2, 1})) { case 0: break; case 1: if (!has16) { ukid = content(ctx, 8); ukid[0] |= 1; R::put(unhashed, R::subpacket(16, false, ukid)); ucls = "issuer in the unhashed area"; } break; default: R::put(unhashed, R::subpacket(99, false, content(ctx, 5))); ucls = "unknown subpacket in the unhashed area"; break; }
+  Bytes hp = R::sig4_hashed_part(version, sigtype, pk, hash, area); body = R::sig4_body(hp, unhashed, left, R::mpis(m)); Bytes pkt = ctx.c.prob(1, 4) ? R::old_packet(2, body, body.size() < 256 ? (unsigned)ctx.c.index(2) : 1) : R::packet(2, body);
+  ctx.desc << "v" << version << " signature algo " << pk << ", hashed subpackets " << types << "(" << area.size() << " octets), " << ucls; ctx.label("v" + N(version)); ctx.label(ucls);
+  expect_signature(ctx, "reference-built", pkt, version, sigtype, pk, hash, area, left, m);
+  if (!ukid.empty() && !ctx.failed) { Dec d(pkt); if (arr(d.c.issuer, 8) != ukid) ctx.fail("packet/signature/reference-built/unhashed-issuer-not-taken", R::hex(arr(d.c.issuer, 8))); }
+  ctx.nontrivial(R::hex(pkt, 200) + N(pkt.size()));
+}
+
+// ---------------------------------------------------------------------------
+// (8) second judge for the RFC 4880 subset: gpg --list-packets in a throw-away home directory
+static bool gpg_available() { static int a = -1; if (a < 0) a = (system("gpg --version >/dev/null 2>&1") == 0) ? 1 : 0; return a == 1; }
+static bool gpg_list(const Bytes &in, std::string &out) {
+  char tmpl[] = "/tmp/c19gpg.XXXXXX"; char *home = mkdtemp(tmpl); if (!home) return false;
+  std::string h = home, f = h + "/in.pgp"; { std::ofstream o(f.c_str(), std::ios::binary); o.write((const char *)in.data(), (std::streamsize)in.size()); }
+  std::string cmd = "gpg --homedir '" + h + "' --batch --no-tty --no-autostart --no-options --list-packets '" + f + "' 2>/dev/null";
+  FILE *p = popen(cmd.c_str(), "r"); bool ok = p != NULL;
+  if (p) { char buf[4096]; size_t n; while ((n = fread(buf, 1, sizeof buf, p)) > 0) out.append(buf, n); pclose(p); }
+  std::string rm = "rm -rf '" + h + "'"; if (system(rm.c_str()) != 0) ok = ok && true;
+  return ok;
+}
+static std::string HEX(const Bytes &b) { std::string s; char t[3]; for (uint8_t x : b) { snprintf(t, 3, "%02X", x); s += t; } return s; }
+VF_SUB(gpg_second_judge, 32, 400) {
+  if (!gpg_available()) { ctx.count("gpg_skipped"); ctx.label("skipped: gpg not installed"); ctx.desc << "gpg not available"; return; }
+  unsigned kind = (unsigned)ctx.c.index(6); Bytes art; std::vector<std::string> want; std::string name;
+  auto key_packet = [&](Bytes &pkt, std::vector<std::string> &w) {
+    static const unsigned algos[] = {1, 16, 17, 19, 22, 18}; unsigned algo = algos[ctx.c.index(6)]; bool sub = ctx.c.coin(); uint32_t created = (uint32_t)ctx.c.range(1, 0x7FFFFFFF); std::vector<Z> v; Bytes material;
+    if (algo == 1 || algo == 16 || algo == 17) { size_t nm = algo == 1 ? 2 : (algo == 16 ? 3 : 4); for (size_t i = 0; i < nm; i++) v.push_back(gen_int(ctx, 2048, nullptr, true));
+      Z p = v[0], q = algo == 16 ? Z(0) : v[1], g = algo == 16 ? v[1] : (algo == 17 ? v[2] : Z(0)), y = algo == 16 ? v[2] : (algo == 17 ? v[3] : Z(0)); Mpi mp(p), mq(q), mg(g), my(y);
+      if (sub) PGP::PacketSubEncode(created, (tmcg_openpgp_pkalgo_t)algo, mp, mq, mg, my, pkt); else PGP::PacketPubEncode(created, (tmcg_openpgp_pkalgo_t)algo, mp, mq, mg, my, pkt); material = R::mpis(v);
+      for (size_t i = 0; i < nm; i++) w.push_back("pkey[" + N(i) + "]: [" + N(R::zbits(v[i])) + " bits]"); }
+    else { size_t ci = ctx.c.index(3); const tmcg_openpgp_byte_t *o = tmcg_openpgp_oidtable[ci].oid; Bytes oid(o + 1, o + 1 + o[0]); v.push_back(gen_int(ctx, 1060, nullptr, true)); Mpi pt(v[0]);
+      if (sub) PGP::PacketSubEncode(created, (tmcg_openpgp_pkalgo_t)algo, oid.size(), oid.data(), pt, TMCG_OPENPGP_HASHALGO_SHA256, TMCG_OPENPGP_SKALGO_AES128, pkt); else PGP::PacketPubEncode(created, (tmcg_openpgp_pkalgo_t)algo, oid.size(), oid.data(), pt, TMCG_OPENPGP_HASHALGO_SHA256, TMCG_OPENPGP_SKALGO_AES128, pkt);
+      material = R::ecc_material(oid, v[0], algo == 18, 8, 7); w.push_back("pkey[0]: [" + N(8 * (oid.size() + 1)) + " bits]"); w.push_back("pkey[1]: [" + N(R::zbits(v[0])) + " bits]"); if (algo == 18) w.push_back("pkey[2]: [32 bits]"); }
+    Bytes body = R::key_body(4, created, algo, material), kid; PGP::KeyidCompute(body, kid);
+    w.push_back(sub ? ":public sub key packet:" : ":public key packet:"); w.push_back("version 4, algo " + N(algo) + ", created " + N(created) + ", expires 0"); w.push_back("keyid: " + HEX(R::keyid_v4(body)));
+    if (kid != R::keyid_v4(body)) ctx.fail("keyid/v4/differs-from-reference", "emitted key");
+    name += "key algo " + N(algo);
+  };
+  auto uid_packet = [&](Bytes &pkt, std::vector<std::string> &w) { static const char al[] = "abcdefghijklmnopqrstuvwxyzABCDEFGHIJKLMNOPQRSTUVWXYZ0123456789 <>@.()-"; std::string u; size_t n = (size_t)ctx.c.range(1, 250); for (size_t i = 0; i < n; i++) u += al[ctx.c.index(sizeof(al) - 1)];
+    PGP::PacketUidEncode(u, pkt); w.push_back(":user ID packet: \"" + u + "\""); name += "user id of " + N(n) + " octets"; };
+  switch (kind) {
+    case 0: key_packet(art, want); break;
+    case 1: uid_packet(art, want); break;
+    case 2: { static const unsigned pks[] = {1, 17, 19, 22}; unsigned pk = pks[ctx.c.index(4)], hash = S2K_HASHES[ctx.c.index(4)], st = (unsigned)ctx.c.index(2); uint32_t t = (uint32_t)ctx.c.range(1, 0x7FFFFFFF); Bytes issuer = content(ctx, ctx.c.coin() ? 20 : 8), hp, left = content(ctx, 2);
+      PGP::PacketSigPrepareDetachedSignature((tmcg_openpgp_signature_t)st, (tmcg_openpgp_pkalgo_t)pk, (tmcg_openpgp_hashalgo_t)hash, t, 0, ctx.c.coin() ? "https://example.org/policy" : "", issuer, hp);
+      std::vector<Z> m; m.push_back(gen_int(ctx, 2048, nullptr, true)); if (pk == 1) { Mpi s(m[0]); PGP::PacketSigEncode(hp, left, s, art); } else { m.push_back(gen_int(ctx, 520, nullptr, true)); Mpi r(m[0]), s(m[1]); PGP::PacketSigEncode(hp, left, r, s, art); }
+      char ld[40]; snprintf(ld, sizeof ld, "begin of digest %02x %02x", left[0], left[1]);
+      want.push_back(":signature packet: algo " + N(pk) + ", keyid " + HEX(issuer_keyid(issuer))); want.push_back("version 4, created " + N(t) + ", md5len 0, sigclass 0x0" + N(st)); want.push_back("digest algo " + N(hash) + ", " + ld);
+      for (auto &z : m) want.push_back("data: [" + N(R::zbits(z)) + " bits]"); want.push_back("hashed subpkt 2 len 4 (sig created"); if (issuer.size() == 20) want.push_back("hashed subpkt 33 len 21 (issuer fpr v4 " + HEX(issuer) + ")");
+      name = "detached signature algo " + N(pk); break; }
+    case 3: { Bytes data = content(ctx, (size_t)ctx.c.range(1, 3000)); long now = (long)ctx.c.range(0, 100000000); set_vnow(now); PGP::PacketLitEncode(data, art);
+      want.push_back(":literal data packet:"); want.push_back("mode b (62), created " + N(1790000000UL + now) + ", name=\"\","); want.push_back("raw data: " + N(data.size()) + " bytes"); name = "literal data of " + N(data.size()) + " octets"; break; }
+    case 4: { bool rsa = ctx.c.coin(); Bytes kid = content(ctx, 8); Z a = gen_int(ctx, 3072, nullptr, true) + (Z(1) << 40), b = gen_int(ctx, 3072, nullptr, true); Mpi ma(a), mb(b);
+      if (rsa) PGP::PacketPkeskEncode(kid, ma, art); else PGP::PacketPkeskEncode(kid, ma, mb, art);
+      want.push_back(":pubkey enc packet: version 3, algo " + N(rsa ? 1 : 16) + ", keyid " + HEX(kid)); want.push_back("data: [" + N(R::zbits(a)) + " bits]"); if (!rsa) want.push_back("data: [" + N(R::zbits(b)) + " bits]"); name = rsa ? "PKESK RSA" : "PKESK Elgamal"; break; }
+    default: { Bytes k, u; key_packet(k, want); name += " + "; uid_packet(u, want); std::string a; PGP::ArmorEncode(TMCG_OPENPGP_ARMOR_PUBLIC_KEY_BLOCK, ctx.c.coin() ? "second judge" : "", R::cat(k, u), a, ctx.c.coin()); art.assign(a.begin(), a.end()); name = "armored key block: " + name; break; }
+  }
+  ctx.desc << name << " (" << art.size() << " octets)"; ctx.label(name.substr(0, name.find(" algo")).substr(0, name.find(" of ")));
+  std::string out; if (!gpg_list(art, out)) { ctx.count("gpg_skipped"); ctx.label("skipped: gpg could not be run"); return; }
+  for (auto &w : want) if (out.find(w) == std::string::npos) { ctx.fail("gpg/list-packets/does-not-show-the-encoded-fields", "expected '" + w + "' for " + ctx.desc.str() + "; artefact " + R::hex(art, 120) + "; gpg printed: " + out.substr(0, 900)); break; }
+  ctx.count("gpg_runs"); ctx.nontrivial(name + N(R::crc24(art)));
+}
+
+// ---------------------------------------------------------------------------
+// single edge cases, each with its own signature (kept apart so that none of them masks the sampled checks)
+VF_ENUM(edge_cases, 7, 7) {
+  size_t i = ctx.c.raw();
+  switch (i) {
+    case 0: { ctx.desc << "armor with an empty payload, all four types"; ctx.label("armor: empty payload");
+      for (size_t t = 0; t < 4; t++) { std::string a; PGP::ArmorEncode(ATYPES[t].t, Bytes(), a); R::Armor ra = R::armor_parse(a);
+        if (!ra.ok || !ra.data.empty() || ra.title != ATYPES[t].title) ctx.fail("armor/encode/not-accepted-by-reference-parser", "empty payload: " + ra.why + " " + jstr(a));
+        Bytes back(1, 0x42); back.clear(); tmcg_openpgp_armor_t r = PGP::ArmorDecode(a, back);
+        if (r != ATYPES[t].t || !back.empty()) ctx.fail("armor/roundtrip/own-armor-of-empty-payload-refused", std::string("ArmorEncode(") + ATYPES[t].title + ", empty) = " + jstr(a) + " ; ArmorDecode of it returned type " + N(r) + " (expected " + N(ATYPES[t].t) + ")"); }
+      break; }
+    case 1: { ctx.desc << "literal data packet with empty data"; ctx.label("literal: empty data"); set_vnow(5); Bytes lib; PGP::PacketLitEncode(Bytes(), lib);
+      Bytes ref = R::packet(11, R::literal_body(0x62, "", 1790000005u, Bytes())); same(ctx, "packet/literal/encode-differs-from-reference", "empty literal", lib, ref);
+      Dec d(lib); if (d.ret != 11 || d.c.datalen != 0) ctx.fail("packet/literal/own-packet-with-empty-data-refused", "PacketLitEncode(empty) = " + R::hex(lib) + " ; PacketDecode of it returned " + N(d.ret) + " (expected 11)"); break; }
+    case 2: { ctx.desc << "zero MPI through the secure-memory codec"; ctx.label("mpi: zero in secure memory"); Mpi z(Z(0)); tmcg_openpgp_secure_octets_t so; PGP::PacketMPIEncode(z, so); Bytes sb(so.begin(), so.end());
+      if (sb != R::mpi(Z(0))) ctx.fail("mpi/encode-secure/differs-from-reference", R::hex(sb)); gcry_mpi_t o = gcry_mpi_new(8); gcry_mpi_set_ui(o, 9); size_t used = PGP::PacketMPIDecode(so, o);
+      if (used != 2 || fromG(o) != 0) ctx.fail("mpi/decode-secure/zero-refused", "PacketMPIEncode(0) into secure octets = " + R::hex(sb) + " ; PacketMPIDecode(secure octets) returned " + N(used) + " (expected 2, value 0); the non-secure overload returns 2");
+      gcry_mpi_release(o); break; }
+    case 3: { ctx.desc << "armor whose checksum line is wrong and one character short"; ctx.label("armor: malformed wrong checksum"); Bytes data{'h', 'e', 'l', 'l', 'o', ' ', 'w', 'o', 'r', 'l', 'd'}; uint32_t c = R::crc24(data) ^ 0x5A5A5A; Bytes cb{(uint8_t)(c >> 16), (uint8_t)(c >> 8), (uint8_t)c};
+      std::string a = "-----BEGIN PGP MESSAGE-----\r\n\r\n" + R::b64(data) + "\r\n=" + R::b64(cb).substr(0, 3) + "\r\n-----END PGP MESSAGE-----\r\n"; R::Armor ra = R::armor_parse(a);
+      if (ra.ok) ctx.fail("harness/reference-parser-disagrees-with-defect-construction", "short checksum accepted by the reference");
+      Bytes back; tmcg_openpgp_armor_t r = PGP::ArmorDecode(a, back); if (r != TMCG_OPENPGP_ARMOR_UNKNOWN) ctx.fail("armor/decode/wrong-checksum-of-three-characters-accepted", "ArmorDecode returned type " + N(r) + " and " + N(back.size()) + " octets for " + jstr(a) + " (correct checksum would be " + R::crc24_text(data) + ")"); break; }
+    case 4: { ctx.desc << "complete MESSAGE block nested inside a SIGNATURE block"; ctx.label("armor: nested block of an earlier type"); Bytes inner{'i', 'n', 'n', 'e', 'r', '!', '!'}, outer{'o', 'u', 't', 'e', 'r', ' ', 'd', 'a', 't', 'a'};
+      std::string a = "-----BEGIN PGP SIGNATURE-----\r\n\r\n" + R::b64(outer) + "\r\n" + R::armor_build("PGP MESSAGE", R::Headers(), inner) + R::crc24_text(outer) + "\r\n-----END PGP SIGNATURE-----\r\n";
+      if (R::armor_parse(a).ok) ctx.fail("harness/reference-parser-disagrees-with-defect-construction", "nested block accepted by the reference");
+      Bytes back; tmcg_openpgp_armor_t r = PGP::ArmorDecode(a, back); if (r != TMCG_OPENPGP_ARMOR_UNKNOWN) ctx.fail("armor/decode/nested-block-of-earlier-type-accepted", "ArmorDecode returned type " + N(r) + " and payload " + jstr(std::string(back.begin(), back.end())) + " for " + jstr(a)); break; }
+    case 5: { ctx.desc << "armor comment that contains five dashes"; ctx.label("armor: comment with five dashes"); Bytes data{1, 2, 3, 4, 5, 6, 7, 8, 9}; std::string a; PGP::ArmorEncode(TMCG_OPENPGP_ARMOR_MESSAGE, "see ----- below", data, a);
+      R::Armor ra = R::armor_parse(a); if (!ra.ok || ra.data != data) ctx.fail("armor/encode/not-accepted-by-reference-parser", ra.why);
+      Bytes back; tmcg_openpgp_armor_t r = PGP::ArmorDecode(a, back); if (r != TMCG_OPENPGP_ARMOR_MESSAGE || back != data) ctx.fail("armor/roundtrip/own-armor-with-dashes-in-comment-refused", "ArmorEncode(MESSAGE, comment 'see ----- below') = " + jstr(a) + " ; ArmorDecode of it returned type " + N(r)); break; }
+    default: { ctx.desc << "protected secret key with a secret of fewer than ten octets"; ctx.label("secret key: short secret, protected"); Mpi p(Z(1) << 600), q((Z(1) << 159) + 7), g(Z(3)), y(Z(1) << 500), x(Z(5)); Bytes salt(8, 1), iv(16, 2), lib; rng_script(R::cat(salt, iv));
+      PGP::PacketSecEncode(1700000000, TMCG_OPENPGP_PKALGO_DSA, p, q, g, y, x, sec("pw"), lib); rng_script_clear();
+      std::vector<Z> pub{Z(1) << 600, (Z(1) << 159) + 7, Z(3), Z(1) << 500}, sv{Z(5)}; Bytes body = R::key_body(4, 1700000000, 17, R::mpis(pub)); R::put(body, R::secret_sha1_aes256(sv, "pw", 8, salt, 0xAC, iv));
+      same(ctx, "packet/secret-key-protected/encode-differs-from-reference", "short secret", lib, R::packet(5, body)); break; }
+  }
+  ctx.nontrivial("edge" + N(i));
 }
